@@ -104,7 +104,10 @@ Seeds == {Un(<<Leaf("int"), Leaf("str")>>), Un(<<Leaf("int"), Leaf("None")>>), U
           \* members that differ only in a nested Literal whose values have the same text ("1" and 1)
           Un(<<H("list", <<Lit(<<"s_1">>)>>, <<>>), H("list", <<Lit(<<"i1">>)>>, <<>>)>>),
           Un(<<H("dict", <<Leaf("str"), Lit(<<"i1">>)>>, <<>>), H("dict", <<Leaf("str"), Lit(<<"s_1">>)>>, <<>>), Leaf("None")>>),
-          Un(<<Lit(<<"none", "s_a">>), Lit(<<"s_b">>)>>), Un(<<H("dict", <<Leaf("str"), Leaf("int")>>, <<>>), H("dict", <<Leaf("str"), Leaf("str")>>, <<>>)>>)}
+          Un(<<Lit(<<"none", "s_a">>), Lit(<<"s_b">>)>>), Un(<<H("dict", <<Leaf("str"), Leaf("int")>>, <<>>), H("dict", <<Leaf("str"), Leaf("str")>>, <<>>)>>),
+          \* members of one origin that share a generic leading argument (which can be respelled on one side only) and differ behind it
+          Un(<<H("tuple", <<H("list", <<Leaf("int")>>, <<>>), Leaf("int")>>, <<>>), H("tuple", <<H("list", <<Leaf("int")>>, <<>>), Leaf("str")>>, <<>>)>>),
+          Un(<<H("dict", <<H("optional", <<Leaf("int")>>, <<>>), Leaf("str")>>, <<>>), H("dict", <<H("optional", <<Leaf("int")>>, <<>>), Leaf("bytes")>>, <<>>)>>)}
 
 VARIABLES h, prev, rule, keeps, n, root, allkeeps
 vars == <<h, prev, rule, keeps, n, root, allkeeps>>
